@@ -292,6 +292,7 @@ def u_roundtrip_g1(ctx):
             path.prove(f"{name}/ensures.accepts", ZAtom(z3.BoolVal(False)),
                        detail=f"Enc1 of a valid point must not be refused: this {res.__name__} path must be infeasible")
             return
+        path.prove(f"{name}/ensures.accepts", True, detail="Enc1 of a valid point is accepted")
         r = decode_g1_result(path, name, res)
         if r is None:
             return
@@ -531,6 +532,7 @@ def u_roundtrip_g2(ctx):
             path.prove(f"{name}/ensures.accepts", ZAtom(z3.BoolVal(False)),
                        detail=f"Enc2 of a valid point must not be refused: this {res.__name__} path must be infeasible")
             return
+        path.prove(f"{name}/ensures.accepts", True, detail="Enc2 of a valid point is accepted")
         xs, ys, zs = fq2_coeffs(res[0]), fq2_coeffs(res[1]), fq2_coeffs(res[2])
         path.prove(f"{name}/ensures.same-point",
                    ZAtom(z3.And(zt(xs[0]) == zt(Xre), zt(xs[1]) == zt(Xim), zt(ys[0]) == zt(Yre), zt(ys[1]) == zt(Yim),
